@@ -1977,7 +1977,7 @@ def selftest(seeds=50):
     failures: records NOT covered by KNOWN_DEVIATIONS (a wrong builder, or a change in yowsup);
     known: one record per KNOWN_DEVIATIONS entry that reproduced (first failing seed, number of failing seeds);
     known_not_reproduced: KNOWN_DEVIATIONS entries that did not fail on any seed (yowsup got fixed?)."""
-    known = dict((_dev_key(d), d) for d in KNOWN_DEVIATIONS)
+    known = dict((_dev_key(d), d) for d in KNOWN_DEVIATIONS if d["check"] != "routing")
     hits = {}
     failures = []
     seen_fail = set()
@@ -2005,7 +2005,6 @@ def selftest(seeds=50):
             "known_not_reproduced": [known[k] for k in known if k not in hits]}
 
 
-KNOWN_DEVIATIONS = []
 
 
 def _main():
@@ -2023,6 +2022,142 @@ def _main():
     for r in res["failures"]:
         print("  FAIL %s [%s] seed %d %s: %s" % (r["kind"], r["variant"], r["seed"], r["check"], r["what"][:300]))
     return 1 if res["failures"] or res["known_not_reproduced"] else 0
+
+
+# --------------------------------------------------------------------------- #
+# Known deviations of the UNMODIFIED yowsup tree from the documented shapes.
+# Every entry was produced by selftest()/catalogue_selftest.py, seed = first failing seed
+# (make_node(random.Random(seed), variant=variant)).  check: see check_kind(); "routing" entries
+# need the layers and are reproduced by catalogue_selftest.py, not by selftest().
+# --------------------------------------------------------------------------- #
+
+def _dev(kind, variant, seed, check, what):
+    assert kind in BY_NAME, kind
+    return {"kind": kind, "variant": variant, "seed": seed, "check": check, "what": what}
+
+
+KNOWN_DEVIATIONS = []
+
+# -- families: one cause, many kinds ------------------------------------------
+for _k in KINDS:
+    if _k.direction != "in" or not _k.entity_class:
+        continue
+    if "no_offline" in _k.variants:
+        KNOWN_DEVIATIONS.append(_dev(
+            _k.name, "no_offline", 0, "roundtrip",
+            "offline attribute absent on input is written back as offline=\"0\" (%s stores offline as bool, "
+            "absent is not distinguished from \"0\")" % (
+                "MessageMetaAttributes" if _k.tag == "message" else
+                "CallProtocolEntity" if _k.tag == "call" else "NotificationProtocolEntity")))
+    if "no_notify" in _k.variants:
+        KNOWN_DEVIATIONS.append(_dev(
+            _k.name, "no_notify", 0, "roundtrip",
+            "notify attribute absent on input: NotificationProtocolEntity.toProtocolTreeNode writes notify=None "
+            "(a None attribute value, not encodable)"))
+    if "with_participant" in _k.variants:
+        KNOWN_DEVIATIONS.append(_dev(
+            _k.name, "with_participant", 0, "roundtrip",
+            "participant attribute of a non-group notification is dropped by the entity (the layer's ack still copies "
+            "it from the node)"))
+    if _k.entity_class == _IQ_RESULT:
+        KNOWN_DEVIATIONS.append(_dev(
+            _k.name, None, 0, "class",
+            "ResultIqProtocolEntity has no fromProtocolTreeNode of its own: the inherited one returns a plain "
+            "IqProtocolEntity, so the entity surfaced for this result is not a ResultIqProtocolEntity"))
+for _k in ("in.ack.message", "in.ack.receipt", "in.ack.notification"):
+    KNOWN_DEVIATIONS.append(_dev(_k, "no_t", 0, "roundtrip",
+                                 "IncomingAckProtocolEntity writes t=None when the ack has no t attribute"))
+for _k in ("in.stream:error.conflict", "in.stream:error.ack", "in.stream:error.xml-not-well-formed"):
+    KNOWN_DEVIATIONS.append(_dev(
+        _k, None, 0, "roundtrip",
+        "StreamErrorProtocolEntity.toProtocolTreeNode calls ProtocolEntity.toProtocolTreeNode (returns None) and then "
+        "None.addChild -> AttributeError for every stream:error"))
+for _k in ("in.ib.dirty", "in.ib.offline"):
+    KNOWN_DEVIATIONS.append(_dev(_k, "with_from", 0, "roundtrip",
+                                 "from=\"s.whatsapp.net\" of <ib> (documented for offline/account ib) is dropped"))
+for _k in ("in.message.media.video", "in.message.media.gif"):
+    KNOWN_DEVIATIONS.append(_dev(
+        _k, "optional_fields_absent", 0, "roundtrip",
+        "proto_to_video reads absent optional proto2 fields (gif_playback, jpeg_thumbnail, gif_attribution, caption, "
+        "streaming_sidecar) as their defaults and video_to_proto writes them back as explicitly set: payload bytes change"))
+for _k in ("in.iq.result.groups.add", "in.iq.result.groups.remove"):
+    KNOWN_DEVIATIONS.append(_dev(
+        _k, "with_failed_participant", 0, "roundtrip",
+        "children whose type is not \"success\" (participants the server refused) are silently dropped"))
+for _k in ("out.iq.groups.add", "out.iq.groups.remove", "out.iq.groups.promote", "out.iq.groups.demote"):
+    KNOWN_DEVIATIONS.append(_dev(
+        _k, None, 0, "out-parse",
+        "fromProtocolTreeNode calls ParticipantsGroupsIqProtocolEntity.setProps(jid, participants) without the "
+        "required mode argument -> TypeError"))
+for _k in ("out.iq.push", "out.iq.props"):
+    KNOWN_DEVIATIONS.append(_dev(
+        _k, None, 0, "out-parse",
+        "class has no fromProtocolTreeNode: the inherited one gives a plain IqProtocolEntity, child node lost"))
+
+# -- single entries -------------------------------------------------------------
+KNOWN_DEVIATIONS += [
+    _dev("in.ib.account", None, 0, "roundtrip",
+         "AccountIbProtocolEntity.fromProtocolTreeNode has no return statement: returns None (YowIbProtocolLayer then "
+         "passes None upwards); toProtocolTreeNode would also write creation/expiration as int"),
+    _dev("in.ib.account", "with_from", 0, "roundtrip", "same as the default variant: fromProtocolTreeNode returns None"),
+    _dev("in.message.media.sticker", "optional_fields_absent", 0, "roundtrip",
+         "absent png_thumbnail is read as b\"\" and written back as an explicitly set empty field: payload bytes change"),
+    _dev("in.message.media.location", "with_skdm", 0, "roundtrip",
+         "location_to_proto assigns location_message._axolotl_sender_key_distribution_message (leading underscore) -> "
+         "AttributeError when a location carries axolotl_sender_key_distribution_message"),
+    _dev("in.call.other", "unknown_child", 0, "roundtrip",
+         "a <call> child other than offer/transport/relaylatency/reject/terminate is dropped (type None, no child written)"),
+    _dev("in.notification.w:gp2.create", None, 0, "types",
+         "CreateGroupsNotificationProtocolEntity writes group attribute s_t as int instead of str"),
+    _dev("in.notification.w:gp2.create", "no_offline", 0, "types", "s_t written as int (see default variant)"),
+    _dev("in.notification.w:gp2.create", "no_notify", 0, "types", "s_t written as int (see default variant)"),
+    _dev("in.iq.result.groups.info", None, 0, "types",
+         "InfoGroupsResultIqProtocolEntity writes group attribute s_t as int instead of str"),
+    _dev("in.iq.result.sync", "last_false", 0, "roundtrip",
+         "sync last=\"false\" is kept as the (truthy) string and written back as last=\"true\""),
+    _dev("in.iq.result.picture.get", None, 0, "roundtrip",
+         "ResultGetPictureIqProtocolEntity.toProtocolTreeNode builds ProtocolTreeNode({\"type\": ...}, data=...): the "
+         "attribute dict is passed as the TAG, picture id and type attributes are lost"),
+    _dev("in.iq.result.picture.set", None, 0, "roundtrip",
+         "same ResultGetPictureIqProtocolEntity.toProtocolTreeNode defect (dict used as tag, id lost); a result without "
+         "<picture> child would raise AttributeError in fromProtocolTreeNode"),
+    _dev("in.iq.result.privacy", None, 0, "roundtrip",
+         "ResultPrivacyIqProtocolEntity.toProtocolTreeNode writes an empty <privacy/>: all <category> children lost"),
+    _dev("out.iq.crypto", None, 0, "serialise",
+         "CryptoIqProtocolEntity.toProtocolTreeNode uses str.decode('hex') (python 2 only) -> AttributeError"),
+    _dev("out.iq.crypto", None, 0, "out-parse", "no fromProtocolTreeNode of its own: <crypto> child lost"),
+    _dev("out.iq.crypto", None, 0, "routing", "YowIqProtocolLayer.sendIq raises the AttributeError above, nothing is sent"),
+    _dev("out.iq.picture.delete", None, 0, "serialise",
+         "IqProtocolEntity asserts type in (set,get,result,error): an iq of type \"delete\" cannot be constructed, the "
+         "delete branch of YowProfilesProtocolLayer.sendIq is unreachable through the public API (make_entity forces _type)"),
+    _dev("out.iq.picture.delete", None, 0, "out-parse", "fromProtocolTreeNode asserts on type \"delete\""),
+    _dev("out.iq.unregister", None, 0, "routing",
+         "UnregisterIqProtocolEntity has xmlns None on the iq: no layer's sendIq accepts it, the entity is silently "
+         "dropped (0 stanzas at the bottom)"),
+    _dev("in.notification.picture.other", None, 0, "routing",
+         "YowNotificationsProtocolLayer raises ValueError for a picture notification without set/delete child and "
+         "never sends the mandatory ack"),
+    _dev("in.ib.account", None, 0, "routing", "YowIbProtocolLayer passes None (see roundtrip entry) to the upper layer"),
+    _dev("out.message.media.video", None, 0, "out-parse",
+         "optional video fields not given to the constructor come back explicitly set after fromProtocolTreeNode "
+         "(same cause as in.message.media.video/optional_fields_absent)"),
+    _dev("out.message.media.sticker", None, 4, "out-parse", "absent png_thumbnail comes back as explicitly set b\"\""),
+    _dev("out.receipt.read.list", None, 0, "out-parse",
+         "OutgoingReceiptProtocolEntity.fromProtocolTreeNode calls listNode.getChildren(), which ProtocolTreeNode does "
+         "not have -> AttributeError"),
+    _dev("out.receipt.call", None, 0, "out-parse", "fromProtocolTreeNode ignores the <offer call-id=> child"),
+    _dev("out.iq.lastseen", None, 0, "out-parse",
+         "LastseenIqProtocolEntity.fromProtocolTreeNode does not pass the id: a fresh id is generated"),
+    _dev("out.iq.sync.get", None, 3, "out-parse", "sync last=\"false\" parsed as truthy string, written back as \"true\""),
+    _dev("out.iq.picture.get", None, 2, "out-parse",
+         "GetPictureIqProtocolEntity.fromProtocolTreeNode stores the type string as the preview flag: \"image\" is truthy "
+         "and becomes \"preview\""),
+    _dev("out.iq.privacy.set", None, 0, "out-parse",
+         "SetPrivacyIqProtocolEntity.fromProtocolTreeNode always sets value \"all\""),
+    _dev("out.iq.groups.participants", None, 0, "out-parse",
+         "ParticipantsGroupsIqProtocolEntity.fromProtocolTreeNode never sets participantList/mode -> AttributeError in "
+         "toProtocolTreeNode; the class docstring documents <iq type=get><list/></iq>, which the constructor cannot build"),
+]
 
 
 if __name__ == "__main__":
